@@ -654,6 +654,10 @@ class Prop:
 
     def correspondence(self, ctx, replay=None):
         flavours = ["dbg", "ndebug"] if ctx.quick() else ["dbg", "ndebug", "asan"]
+        if ctx.quick() and ctx.search_mode:
+            # an obligation or tie broke: look for a concrete failing input under the sanitizer first (lifetime slips
+            # - a raw pointer where a reference was held - are silent without it)
+            flavours = ["asan", "dbg", "ndebug"]
         ctx.extra["flavours"] = flavours
         ctx.extra["pollers"] = ["epoll"] if ctx.quick() else ["epoll", "poll"]
         if replay:
